@@ -433,6 +433,18 @@ def digest_rules(prog, chk, pid):
     ok, why = res.ret is not None and not res.dead, "no result with allow_truncate=True"
     if ok:
         v = unsnap(res.ret)
+        if v.op == "phi":
+            # `number >> (h - q) if h > q else number` is number >> max(0, h - q): a shift by 0 changes nothing
+            from bfsa.guard import rel as _rel
+
+            r_ = _rel(v.args[0], True)
+            sh_arm, id_arm = unsnap(v.args[1]), unsnap(v.args[2])
+            if r_[0] == "rel" and r_[1] in ("Lt", "LtE"):
+                r_ = ("rel", {"Lt": "Gt", "LtE": "GtE"}[r_[1]], r_[3], r_[2])
+            if r_[0] == "rel" and r_[1] in ("Gt", "GtE") and sh_arm.op == "bin" and sh_arm.args[0] == "RShift" and unsnap(sh_arm.args[1]) is id_arm:
+                d_ = unsnap(sh_arm.args[2])
+                if d_.op == "bin" and d_.args[0] == "Sub" and unsnap(d_.args[1]) is unsnap(r_[2]) and unsnap(d_.args[2]) is unsnap(r_[3]):
+                    v = mk("bin", "RShift", id_arm, mk("call", mk("builtin", "max"), (C(0), d_), (), 0))
         ok = v.op == "bin" and v.args[0] == "RShift"
         why = "result is not <number> >> <shift> (%s)" % show(v, 5)[:80]
     if ok:
